@@ -324,10 +324,25 @@ theorem C12R_listing_helpers_reachable (env₀ : Env) (ops : List Op) (hn : ∀ 
     ∃ ps, listing env path maxDepth dirs files (run env₀ Memfs.init ops) = (.ok ps, run env₀ Memfs.init ops) ∧
       ps.Pairwise (fun p q => pathLt p q = true) ∧ ps.Nodup ∧ a ∉ ps ∧
       ∀ p, p ∈ ps ↔ ∃ t e, p = a ++ t ∧ t ≠ [] ∧ t.length ≤ depthCap maxDepth ∧
-        alLookup p (run env₀ Memfs.init ops).entries = some e ∧ (files = true → e.file = true) ∧
-        (dirs = true → files = false → e.dir = true) :=
+        alLookup p (run env₀ Memfs.init ops).entries = some e ∧ (files = true → e.file = true ∧ e.link = false) ∧
+        (dirs = true → files = false → e.dir = true ∧ e.link = false) :=
   C08_listing_helpers_reachable env₀ ops (C12R_history_returns env₀ ops hn) env path maxDepth dirs files a
     habs hdir
+
+/-- C08: on every state reached without following links, the listed paths are exactly the paths strictly
+    below the directory (within the depth limit) that exist and satisfy `is_file` (`files` / `all_files`),
+    `is_dir` (`dirs` / `all_dirs`) — whatever links lie below -/
+theorem C12R_listing_agrees_with_queries_reachable (env₀ : Env) (ops : List Op) (hn : ∀ o ∈ ops, NoFollowOp o)
+    (env : Env) (path : Str) (maxDepth : Option Nat) (dirs files : Bool) (a : FsPath) (ps : List FsPath)
+    (habs : absM env path (run env₀ Memfs.init ops) = (.ok a, run env₀ Memfs.init ops))
+    (hdir : isDirP (run env₀ Memfs.init ops) a = true)
+    (hl : listing env path maxDepth dirs files (run env₀ Memfs.init ops) = (.ok ps, run env₀ Memfs.init ops)) :
+    ∀ p, p ∈ ps ↔ ∃ t e, p = a ++ t ∧ t ≠ [] ∧ t.length ≤ depthCap maxDepth ∧
+      alLookup p (run env₀ Memfs.init ops).entries = some e ∧
+      (files = true → (e.file && !e.link) = true) ∧
+      (dirs = true → files = false → isDirP (run env₀ Memfs.init ops) p = true) :=
+  C08_listing_agrees_with_queries_reachable env₀ ops (C12R_history_returns env₀ ops hn) env path maxDepth
+    dirs files a ps habs hdir hl
 
 /-- C09: tree copy is the reference's `copySpec` on every state reached without following links -/
 theorem C12R_copy_tree_reachable (env₀ : Env) (ops : List Op) (hn : ∀ o ∈ ops, NoFollowOp o)
